@@ -177,6 +177,24 @@ def probe_projects():
         add("channel-type", cls, use, defs + "use tauri::ipc::Channel;\n" + rg.command_src("get_item", [("id", "i32"), ("ch", "Channel<%s>" % use)], "Item"))
         add("event-payload-type", cls, use, defs + rg.command_src("get_item", [("id", "i32")], "Item") +
             "pub fn notify(app: tauri::AppHandle, p: %s) {\n    app.emit(\"arr\", p).unwrap();\n}\n\n" % use.replace("&'static ", "&"))
+    # --- table types nested far deeper than anybody writes them by hand (generated code does): every level is translated
+    def nest(depth, leaf, k0):
+        t = leaf
+        wraps = ["Vec<%s>", "Option<%s>", "HashMap<String, %s>", "(u8, %s)", "BTreeMap<u32, %s>", "HashSet<%s>"]
+        for k in range(depth):
+            t = wraps[(k0 + k) % len(wraps)] % t
+        return t
+    for depth in (8, 15, 16, 17, 24, 33, 64):
+        for k0, leaf in enumerate(("(i32, String)", "Item", "HashMap<String, (bool, ())>")):
+            use = nest(depth, leaf, k0)
+            cls = "nesting-depth-%d" % depth
+            defs = rg.struct_src("Item", [("a", "i32")])
+            add("param-type", cls, use, defs + rg.command_src("get_item", [("req", use)], "Item"))
+            add("return-type", cls, use, defs + rg.command_src("get_item", [("id", "i32")], "Result<%s, String>" % use))
+            add("field-type", cls, use, defs + raw_struct("Holder", [("h", use)]) + rg.command_src("get_item", [("id", "i32")], "Holder"))
+            add("channel-type", cls, use, defs + "use tauri::ipc::Channel;\n" + rg.command_src("get_item", [("id", "i32"), ("ch", "Channel<%s>" % use)], "Item"))
+            add("event-payload-type", cls, use, defs + rg.command_src("get_item", [("id", "i32")], "Item") +
+                "pub fn notify(app: tauri::AppHandle, p: %s) {\n    app.emit(\"deep\", p).unwrap();\n}\n\n" % use)
     # --- instantiations of generic types the tool has no table entry for: project generics and std smart pointers
     for use in ("Page<Item>", "Page<Vec<Item>>", "Page<Option<Page<Item>>>", "Vec<Page<Vec<Item>>>", "Box<Item>", "std::sync::Arc<Vec<Item>>", "Rc<Option<Item>>",
                 "Option<Box<Vec<Item>>>", "HashMap<String, Page<Vec<i32>>>"):
